@@ -68,6 +68,21 @@ def load():
     return pb
 
 
+def global_step_feet():
+    """The process-wide default maximum step, in feet, as a calculator created NOW would receive it.
+
+    Read from the module global the property names (trajectory_calc._globalMaxCalcStepSizeFeet) while it exists as a
+    number; a tree that keeps the setting in another form is observed through what the setting is FOR - the step a
+    default-configured calculator gets (interface_config.create_interface_config) - so a refactoring of the private
+    representation is not a harness error."""
+    import py_ballisticcalc.trajectory_calc as tc
+    v = getattr(tc, "_globalMaxCalcStepSizeFeet", None)
+    if isinstance(v, (int, float)) and not isinstance(v, bool):
+        return v
+    from py_ballisticcalc.interface_config import create_interface_config
+    return create_interface_config(None).max_calc_step_size_feet
+
+
 def reset_globals():
     """Documented default global state."""
     pb.PreferredUnits.defaults()
